@@ -77,7 +77,7 @@ def run_respondent(raw, cuts, framing):
     return out
 
 
-def run_respondent_reuse(first, second, cuts, mode):
+def run_respondent_reuse(first, second, cuts, mode, framing2="chunked"):
     """One Respondent parses two event-stream responses one after the other, set up in between the way the Patron does
     it; returns the events of the second response.
       mode "reconnect": the first stream (read until close) is cut off where `first` ends -- possibly in the middle of
@@ -123,9 +123,14 @@ def run_respondent_reuse(first, second, cuts, mode):
         r.reinit(method="GET")              # Patron.transmit for the next request
         before = len(r.events)
         pieces = hg.cut(second, cuts)
-        feed(head + b"Transfer-Encoding: chunked\r\n\r\n" + b"%x\r\n%s\r\n" % (len(pieces[0]), pieces[0]))
-        for p_ in pieces[1:]:
-            feed(b"%x\r\n%s\r\n" % (len(p_), p_))
+        if framing2 == "chunked":
+            feed(head + b"Transfer-Encoding: chunked\r\n\r\n" + b"%x\r\n%s\r\n" % (len(pieces[0]), pieces[0]))
+            for p_ in pieces[1:]:
+                feed(b"%x\r\n%s\r\n" % (len(p_), p_))
+        else:                       # no length, not chunked: the stream lasts until the connection closes
+            feed(head + b"\r\n" + pieces[0])
+            for p_ in pieces[1:]:
+                feed(p_)
         out["events"] = [(e["id"] or "", e["name"], e["data"]) for e in list(r.events)[before:]]
         out["evented"] = bool(r.evented)
     except Exception as ex:
@@ -232,9 +237,11 @@ def check_stream(ctx, s, rng, nrandom, deadline):
             k = rng.randint(0, n)
             first = raw[:k] if rng.random() < 0.85 else raw[:k].rstrip(b"\r\n")
             cuts = hg.random_split(rng, n)
-            got = run_respondent_reuse(first, raw, cuts, mode)
+            framing2 = "close" if rng.random() < 0.5 else "chunked"
+            got = run_respondent_reuse(first, raw, cuts, mode, framing2)
             ctx.hit("respondent_reused_for_a_second_stream")
             ctx.hit("reuse_" + mode)
+            ctx.hit("reuse_second_stream_" + framing2)
             ctx.event(got["calls"])
             count += 1
             if got["exc"]:
@@ -243,7 +250,7 @@ def check_stream(ctx, s, rng, nrandom, deadline):
                 continue
             ctx.check(got["evented"] and got["events"] == whole["events"], "sse/respondent-reuse/" + mode,
                       "events of the second stream parsed by a reused Respondent (%s) differ from the events of that stream" % mode,
-                      lambda: wit({"mode": mode, "first_stream": first, "cuts": list(cuts), "second_stream_events": got["events"],
+                      lambda: wit({"mode": mode, "second_framing": framing2, "first_stream": first, "cuts": list(cuts), "second_stream_events": got["events"],
                                    "expected": whole["events"]}))
     ctx.evaluations += count
     ctx.hit("split_cases", count)
@@ -267,8 +274,40 @@ def gen_for(seed, idx, short):
     return s, rng
 
 
+def long_line_cases(ctx):
+    """event lines whose length is at, or just below, the longest line the parser takes (httping.MAX_LINE_SIZE), with every
+    line ending, delivered whole and cut right before, inside and after the line's end: the same events every time"""
+    from ioflo.aio.http import httping
+    M = httping.MAX_LINE_SIZE
+    for eol in (b"\n", b"\r\n", b"\r"):
+        for L in (M - 2, M - 1, M):
+            for field in (b"data: ", b"data:", b": "):
+                line = field + b"x" * (L - len(field))
+                raw = b"id: 7" + eol + line + eol + b"data: tail" + eol + eol + b"data: next" + eol + eol + b": end"
+                end = len(b"id: 7" + eol) + len(line)
+                whole = run_source([raw])
+                ctx.hit("long_line_streams")
+                ctx.case(("longline", L, eol, field), nontrivial=True)
+                if whole["exc"]:
+                    ctx.fail("sse/long-line/whole/" + whole["exc"], "a stream whose longest line has %d bytes (limit %d) is refused: %s" % (L, M, whole["msg"]),
+                             {"line_length": L, "limit": M, "eol": eol.decode("latin-1")})
+                    continue
+                for cuts in ([end], [end - 1], [end + 1], [end, end + len(eol)], [5, end], [end - 1, end]):
+                    got = run_source(hg.cut(raw, cuts))
+                    ctx.event(got["calls"])
+                    ctx.hit("long_line_splits")
+                    eq = got["exc"] is None and (got["events"], got["leid"], got["retry"]) == (whole["events"], whole["leid"], whole["retry"])
+                    ctx.check(eq, "sse/split-vs-whole/long-line",
+                              "a stream whose longest line has %d bytes (limit %d) yields other events when cut at %s (line ends at %d): %s" % (
+                                  L, M, cuts, end, got.get("msg") or got["events"][:2]),
+                              lambda: {"line_length": L, "limit": M, "eol": eol.decode("latin-1"), "cuts": cuts, "line_end": end,
+                                       "whole_events": [(a, b, c[:40]) for a, b, c in whole["events"]], "split": {k: (v if k != "events" else [(a, b, c[:40]) for a, b, c in v]) for k, v in got.items() if k != "rest"}})
+
+
 def worker(ctx, job):
     deadline = time.time() + job["budget"]
+    if job["short"] and job["short"][0] == 0:
+        long_line_cases(ctx)
     for idx in job["short"]:
         s, rng = gen_for(ctx.seed, idx, True)
         check_stream(ctx, s, rng, 0, deadline)
@@ -291,6 +330,7 @@ def run(ctx):
     ctx.shard(jobs, timeout=ctx.pick(60, 1500))
     ctx.floor("split_cases", ctx.pick(35000, 2400000))
     ctx.floor("respondent_reused_for_a_second_stream", ctx.pick(600, 100000))
+    ctx.floor("long_line_splits", 150)
     ctx.floor("distinct_nontrivial", ctx.pick(120, 12000))
     ctx.floor("short_streams_exhaustive", ctx.pick(25, 1500))
     ctx.floor("cut_between_cr_and_lf", ctx.pick(3000, 200000))
